@@ -7,6 +7,7 @@ import (
 	"fmt"
 	"io"
 	"net"
+	"os"
 	"sync"
 	"time"
 
@@ -28,7 +29,9 @@ type streamCase struct {
 	Defaults bool `json:"defaults"`
 	// Slow: the handler takes 120 ms, the server's write timeout is 60 ms
 	Slow bool `json:"slow"`
-	raw  []byte
+	// DlRead: the server's side of the connection returns data TOGETHER with the read-deadline error
+	DlRead bool `json:"dlread"`
+	raw    []byte
 }
 
 type connStep struct {
@@ -166,6 +169,20 @@ type pipeListener struct {
 	// failed: Accept returns an error nobody asked for (listener failure, E05)
 	failed   chan struct{}
 	failOnce sync.Once
+	// wrap: applied to every connection handed to the server
+	wrap func(net.Conn) net.Conn
+}
+
+// dlConn: a transport that hands over what it has together with the read-deadline error (io.Reader allows n > 0 with a
+// non-nil error; a connection that gathers bytes until its deadline passes behaves like this)
+type dlConn struct{ net.Conn }
+
+func (c dlConn) Read(p []byte) (int, error) {
+	n, err := c.Conn.Read(p)
+	if n > 0 && err == nil {
+		return n, os.ErrDeadlineExceeded
+	}
+	return n, err
 }
 
 func newPipeListener() *pipeListener {
@@ -187,6 +204,9 @@ func (l *pipeListener) Accept() (net.Conn, error) {
 	case <-l.failed:
 		return nil, errListenerFailed
 	case c := <-l.ch:
+		if l.wrap != nil {
+			c = l.wrap(c)
+		}
 		return c, nil
 	case <-l.closed:
 		return nil, net.ErrClosed
@@ -260,8 +280,11 @@ func (t *tapAssembler) ReceiveRead(ctx context.Context, received []byte, bytesRe
 // e2e: the same segments through server.Server over the in-memory listener; afterwards a second
 // connection performs a plain FC3 exchange ("never disturbs other connections")
 func runStreamE2E(c *streamCase) []Ev {
-	evs := []Ev{{"ev": "reset", "mode": "e2e", "frames": c.Frames, "streams": [][][]int{c.Frames}, "handler": c.Handler, "slow": c.Slow, "defaults": c.Defaults}}
+	evs := []Ev{{"ev": "reset", "mode": "e2e", "frames": c.Frames, "streams": [][][]int{c.Frames}, "handler": c.Handler, "slow": c.Slow, "defaults": c.Defaults, "dlread": c.DlRead}}
 	ln := newPipeListener()
+	if c.DlRead {
+		ln.wrap = func(x net.Conn) net.Conn { return dlConn{x} }
+	}
 	taps := make(chan *tapAssembler, 4)
 	first := true
 	var fmu sync.Mutex
